@@ -441,6 +441,103 @@ theorem tpfa_hydrostatic_bound_pressure (g : Grid) (vsd : Nat) (f : Nat) (h : HF
   simp only [hneu, hbc, d, hp, List.map_cons, List.map_nil, List.sum_cons, List.sum_nil, if_true]
   ring
 
+/-- **Linear pressures are reproduced exactly — grid-level statement with decidable hypotheses.**
+    Well-formed incidence, consistent boundary bookkeeping (`bndOK`: no Robin), K-orthogonal grid with the
+    constant symmetric tensor `K` (`korthGrid`: `K n × d = 0` on every half-face — Cartesian / tensor grids
+    with diagonal `K` and their affine images).  Affine pressure `p = a + G.x` at the cell centres,
+    Dirichlet data `p(x_f)`, Neumann data = exact outward flux.  Then on EVERY face
+    `flux * p + bound_flux * bc = -n_f . K G`. -/
+theorem tpfa_linear_exact (g : Grid) (K : M3) (a : Rat) (G : V3) (p bc : Nat → Rat)
+    (hwf : WellFormed g) (hb : bndOK g = true) (hk : korthGrid g K = true) (hsym : K.Symm)
+    (hp : ∀ c, p c = a + G.dot (g.cc c))
+    (hdir : ∀ f ∈ g.bndr, neuAll g f = false → bc f = a + G.dot (g.fc f))
+    (hneu : ∀ f ∈ g.bndr, neuAll g f = true → bc f = - (bsgn g f * (g.normal f).dot (K.mulVec G))) :
+    ∀ f, f < g.nf → faceFlux g f p bc = - (g.normal f).dot (K.mulVec G) := by
+  intro f hf
+  obtain ⟨hnd, hbl, hil⟩ := bndOK_spec g hb
+  obtain ⟨hkh, hki⟩ := korthGrid_spec g K hk
+  have hsq : ∀ s : Rat, s = 1 ∨ s = -1 → s * s = 1 := by
+    intro s hs; rcases hs with rfl | rfl <;> norm_num
+  rcases faceOK_cases g f (hwf.1 f hf) with ⟨h, heq, hs, _⟩ | ⟨h1, h2, heq, _, _, _, hs⟩
+  · have hbd : f ∈ g.bndr := by
+      by_contra hnb
+      have := (hil f hf hnb).1
+      rw [heq] at this; simp at this
+    have hm : h ∈ hfOf g f := by rw [heq]; simp
+    obtain ⟨hmem, hface⟩ := mem_hfOf.mp hm
+    obtain ⟨hKc, hko, _⟩ := hkh h hmem
+    obtain ⟨hpar, hdd⟩ := korthHF_spec g h hko
+    by_cases hn : neuAll g f = true
+    · apply tpfa_exact_neumann g f h _ p bc heq (hsq _ hs) hnd hbd hn
+      rw [hneu f hbd hn]
+      simp only [bsgn, heq, sgnSum]; ring
+    · have hn' : neuAll g f = false := by simpa using hn
+      have hd : dirEff g f = true := by
+        rcases (hbl f hbd).2.2 with h' | h'
+        · exact absurd h' hn
+        · exact h'
+      exact tpfa_exact_Korth_dirichlet g f h K (tHalf g h) a G p bc heq (hsq _ hs) hnd hbd hn' hd hKc hsym
+        (by rw [← hKc, ← hface]; exact hpar) hdd (hp _) (hdir f hbd hn')
+  · have hnb : f ∉ g.bndr := by
+      intro hbd
+      have := (hbl f hbd).2.1
+      rw [heq] at this; simp at this
+    have hn' := (hil f hf hnb).2
+    have hm1 : h1 ∈ hfOf g f := by rw [heq]; simp
+    have hm2 : h2 ∈ hfOf g f := by rw [heq]; simp
+    obtain ⟨hmem1, hface1⟩ := mem_hfOf.mp hm1
+    obtain ⟨hmem2, hface2⟩ := mem_hfOf.mp hm2
+    obtain ⟨hK1, hko1, ht1⟩ := hkh h1 hmem1
+    obtain ⟨hK2, hko2, ht2⟩ := hkh h2 hmem2
+    obtain ⟨hpar1, hdd1⟩ := korthHF_spec g h1 hko1
+    obtain ⟨hpar2, hdd2⟩ := korthHF_spec g h2 hko2
+    have hs1 : h1.sgn * h1.sgn = 1 := by rcases hs with ⟨e, _⟩ | ⟨e, _⟩ <;> rw [e] <;> norm_num
+    have hs2 : h2.sgn = - h1.sgn := by rcases hs with ⟨e1, e2⟩ | ⟨e1, e2⟩ <;> rw [e1, e2] <;> norm_num
+    have hflux := tpfa_exact_Korth g f h1 h2 K (tHalf g h1) (tHalf g h2) a G p heq hs1 hs2 hn' hK1 hK2 hsym
+      (by rw [← hK1, ← hface1]; exact hpar1) (by rw [← hK2, ← hface2]; exact hpar2) hdd1 hdd2 ht1 ht2
+      (hki f hf h1 h2 heq) (hp _) (hp _)
+    unfold faceFlux boundFluxT
+    rw [rowApply_diag g.bndr (fun f => tB g f * bsgn g f) f bc hnd, if_neg hnb, hflux]; ring
+
+/-- `tpfa_const_zero_flux` with decidable hypotheses: well-formed incidence and consistent boundary
+    bookkeeping (every boundary face Dirichlet or Neumann). -/
+theorem tpfa_const_zero_flux_wf (g : Grid) (c : Rat) (bc : Nat → Rat)
+    (hwf : WellFormed g) (hb : bndOK g = true)
+    (hdir : ∀ f, neuAll g f = false → dirEff g f = true → bc f = c)
+    (hneu : ∀ f, neuAll g f = true → bc f = 0) :
+    ∀ f, faceFlux g f (fun _ => c) bc = 0 :=
+  tpfa_const_zero_flux g c bc (bndOK_spec g hb).1 (bsgn_interior g hwf hb)
+    (fun f hf => ((bndOK_spec g hb).2.1 f hf).2.2) hdir hneu
+
+/-- `cartLike` grids have positive half transmissibilities (via `tpfa_thalf_pos_diagK`) -/
+theorem cartLike_pos (g : Grid) (hc : cartLike g = true) : ∀ h ∈ g.hf, 0 < tHalf g h := by
+  intro h hh
+  simp only [cartLike, List.all_eq_true, Bool.and_eq_true, beq_iff_eq, decide_eq_true_eq] at hc
+  obtain ⟨⟨⟨⟨⟨⟨⟨⟨⟨⟨h01, h02⟩, h10⟩, h12⟩, h20⟩, h21⟩, p0⟩, p1⟩, p2⟩, hcr⟩, hdot⟩ := hc h hh
+  have hdd : (dvec g h).dot (dvec g h) ≠ 0 := by
+    intro h0
+    rw [dot_self_zero _ h0] at hdot
+    simp [V3.dot] at hdot
+  have hpar := parallel_eq (outN g h) (dvec g h) hcr hdd
+  have hddpos := dot_self_pos _ hdd
+  apply tpfa_thalf_pos_diagK g h (g.perm h.cell).r0.x (g.perm h.cell).r1.y (g.perm h.cell).r2.z
+    ((dvec g h).dot (outN g h) / (dvec g h).dot (dvec g h)) _ p0 p1 p2 hpar _ hdd
+  · generalize g.perm h.cell = K at h01 h02 h10 h12 h20 h21 ⊢
+    obtain ⟨⟨a, b, c⟩, ⟨d, e, f⟩, ⟨x, y, z⟩⟩ := K
+    simp only at h01 h02 h10 h12 h20 h21
+    rw [h01, h02, h10, h12, h20, h21]
+  · rw [dot_comm]; exact div_pos hdot hddpos
+
+/-- **M-matrix on Cartesian / tensor grids with positive diagonal permeability**, all hypotheses decidable:
+    well-formed incidence and `cartLike` (diagonal positive tensors, outward normals along `d`). -/
+theorem tpfa_Mmatrix_cartesian (g : Grid) (hwf : WellFormed g) (hc : cartLike g = true) :
+    (∀ c1 c2, c1 ≠ c2 → cellOp g c1 c2 ≤ 0) ∧
+    (∀ c, 0 ≤ cellOp g c c) ∧
+    (∀ c, (∃ h ∈ g.hf, h.cell = c ∧ neuAll g h.face = false) → 0 < cellOp g c c) ∧
+    (∀ c, c < g.nc → sumTo g.nc (fun c2 => if c2 = c then 0 else - cellOp g c c2) ≤ cellOp g c c) :=
+  tpfa_Mmatrix g hwf (cartLike_pos g hc)
+
+
 /-- **TPFA = MPFA on K-orthogonal 2-D grids.**  `G` is a grid of the C11 MPFA model (`C11.Grid2`: any
     topology given by `face_nodes` / `cell_faces`, any planar geometry, cell-wise tensors, per-face
     Dirichlet / Neumann), well-formed, with all interaction regions certified nonsingular
@@ -662,6 +759,33 @@ example :
       = some ((List.range 7).map (fun f =>
           faceFlux (ofGrid2 exGrid2) f (fun c => [3, -1].getD c 0) (fun f => [2, 0, 5, 7, 1, 0, 4].getD f 0))) := by
   decide +kernel
+
+/-- grid-level exactness on `ex1`: `bndOK`, `korthGrid` decide to true, and all three faces carry `-6` -/
+example : ∀ f, f < 3 → faceFlux ex1 f exP (fun f => if f == 0 then 1 + exG.dot (ex1.fc 0) else -6) = -6 := by
+  have h := tpfa_linear_exact ex1 exK 1 exG exP (fun f => if f == 0 then 1 + exG.dot (ex1.fc 0) else -6)
+    (by unfold WellFormed; decide +kernel) (by decide +kernel) (by decide +kernel)
+    (by unfold M3.Symm exK; decide +kernel) (fun _ => rfl) (by decide +kernel) (by decide +kernel)
+  intro f hf
+  rw [h f hf]
+  show -(V3.dot ⟨1, 0, 0⟩ (exK.mulVec exG)) = -6
+  decide +kernel
+
+/-- `ex2` is `cartLike` with consistent boundary bookkeeping: M-matrix and zero flux for constants from
+    decidable hypotheses only -/
+example : cartLike ex2 = true ∧ bndOK ex2 = true := by decide +kernel
+example : cellOp ex2 0 1 ≤ 0 :=
+  (tpfa_Mmatrix_cartesian ex2 (by unfold WellFormed; decide +kernel) (by decide +kernel)).1 0 1 (by decide)
+example : ∀ f, faceFlux ex2 f (fun _ => 5) (fun f => if f == 0 || f == 6 then 5 else 0) = 0 :=
+  tpfa_const_zero_flux_wf ex2 5 _ (by unfold WellFormed; decide +kernel) (by decide +kernel)
+    (by intro f _ hd; simp only [dirEff, ex2] at hd; have hd' : f = 0 ∨ f = 6 := by simpa using hd
+        rcases hd' with rfl | rfl <;> rfl)
+    (by
+      intro f hn
+      have : ¬ (f = 0 ∨ f = 6) := by
+        simp only [neuAll, ex2, Bool.or_false] at hn
+        rintro (rfl | rfl) <;> simp at hn
+      simp only [not_or] at this
+      simp [this.1, this.2])
 
 /-- half-face (face 1, cell 0) of `ex2`: `K = diag(1,2,1)`, outward normal `(1,0,0) = 2 d` -/
 example : 0 < tHalf ex2 ⟨1, 0, 1⟩ :=
